@@ -920,6 +920,24 @@ class Parser:
                 if current_line_indent < child_indent:
                     break
 
+                # Literal zone as a direct child of a section: same treatment as inside a block
+                # body (Issue #259). Without it parse_section() returns None, the zone is dropped
+                # and the following siblings are released from the section.
+                if self.current().type == TokenType.FENCE_OPEN:
+                    lzv = self.parse_literal_zone()
+                    children.append(
+                        Assignment(
+                            key="",
+                            value=lzv,
+                            line=self.current().line,
+                            column=self.current().column,
+                            leading_comments=pending_comments or [],
+                        )
+                    )
+                    pending_comments = []
+                    current_line_indent = 0
+                    continue
+
                 # Parse child with any pending comments
                 child = self.parse_section(child_indent, pending_comments)
                 pending_comments = []  # Reset after passing to child
